@@ -1631,7 +1631,10 @@ class IndexHierarchy(IndexBase):
                 for target in levels.targets: #type: ignore
                     labels.extend(target.index)
                     if target.targets is not None:
-                        targets.extend(target.targets)
+                        for sub_target in target.targets:
+                            # offsets are relative to the parent being removed; levels is a copy, so they can be updated
+                            sub_target.offset += target.offset
+                            targets.append(sub_target)
                 index = levels.index.__class__(labels)
                 if not targets:
                     return index.rename(name)
